@@ -30,7 +30,8 @@ def log_syslog(message: str) -> None:
     # Come on python
     message_bytes = message.encode(errors="surrogateescape")
     message = message_bytes.decode("utf-8", errors="backslashreplace")
-    syslogfunc(priority, oneline(message))
+    # syslog.syslog() refuses an embedded NUL (ValueError).
+    syslogfunc(priority, oneline(message).replace("\x00", "\\x00"))
 
 
 def log_none(message: str):
